@@ -34,7 +34,7 @@ Proof.
   - cbn in H. injection H as <- <- <-. cbn. split; [exists []; symmetry; apply app_nil_r|]. split; [constructor|].
     split; [split; [discriminate|congruence]|discriminate].
   - inversion Hnc as [|x l Ht Hr]; subst x l. cbn [scan_toks] in H. cbn [map].
-    destruct t as [pfx loc attrs empty| | |].
+    destruct t as [pfx loc attrs empty| | | |p0 l0 a0 d0 e0]; [| | | |contradiction].
     + (* start tag *)
       cbn [sp_tok_of sp_doc]. cbn [scan_tok] in H. unfold bind in H.
       pose proof (ncname_wf _ Ht) as Hwf.
